@@ -54,6 +54,7 @@ class Ctx(object):
         self.maybe = 0          # decisions taken with an `unknown` feasibility answer
         self.solver_s = 0.0
         self._implied_stack = [{}]
+        self._sqrts = []
         self._fold = {}
         self._extra_depth = 0
 
@@ -93,6 +94,17 @@ class Ctx(object):
         self.side.append(constraint)
         self.defs.append((var.decl().name(), constraint))
         self.solver.add(constraint)
+
+    def sqrt(self, radicand):
+        """fresh r with r >= 0 and r*r == radicand; structurally equal radicands share one r"""
+        rad = z3.simplify(radicand, som=True)
+        for old, r in self._sqrts:
+            if old.eq(rad):
+                return r
+        r = self.fresh('sqrt')
+        self.define(r, z3.And(r >= 0, r * r == rad))
+        self._sqrts.append((rad, r))
+        return r
 
     # -- forking
     def decide(self, e):
@@ -543,7 +555,7 @@ def nice_model(ctx, extra=(), timeout=15000, margin=None):
     base = ctx.base() + list(extra)
     for tier in (0, 1):
         s = z3.Solver()
-        s.set('timeout', timeout)
+        s.set('timeout', min(timeout, 2500) if tier == 0 else timeout)
         s.add(*base)
         if tier == 0:
             for name, v in ctx.inputs.items():
